@@ -202,9 +202,13 @@ def run(tier, seed, rep):
                     'values x boundary registers, multi-write echoes, AA55 answers for each response type x payload '
                     'length 0..255 x fill 0..255; non-trivial = distinct (framing, count, unit, fill, trailing) cells',
                transport_executions=nk, exhaustive=True,
-               samples=[dict(framing='rtu', count=125, fill=255, trailing=7),
+               samples=[dict(framing='rtu', count=125, fill=255, trailing=7,
+                             validator=accept(gp.ModbusRtuReadCommand(0xF7, 0x891C, 125),
+                                              wire.rtu_read_resp(0xF7, b'\xff' * 250, bytes(7))),
+                             through_transport=str(run_k('rtu', 125, 0xFF, bytes(7), True)[1][0])),
                         dict(framing='aa55', type='0186', length=140, fill=255,
-                             checksum=hex(wire.sum16(wire.aa55_resp('0186', b'\xff' * 140)[:-2])))])
+                             checksum=hex(wire.sum16(wire.aa55_resp('0186', b'\xff' * 140)[:-2])),
+                             validator=accept(gp.Aa55ProtocolCommand('010600', '0186'), wire.aa55_resp('0186', b'\xff' * 140)))])
     return dict(level='exploration', coverage=cov,
                 assumptions=['"exactly that payload" = the 2 x count register bytes (read) / the AA55 payload bytes',
                              'frames are built by mc/wire.py from the protocol descriptions'])
